@@ -167,6 +167,30 @@ pub fn write(rt: &tokio::runtime::Runtime, c: Cont, src: &mut dyn TilesReaderTra
 	}
 }
 
+/// Writes `src` with the repository's writer for `c` to the given path through the writers' path API (whatever is
+/// at that path already stays there for the writer to deal with).
+pub fn write_to_existing_path(rt: &tokio::runtime::Runtime, c: Cont, src: &mut dyn TilesReaderTrait, path: &Path) -> Result<Written, String> {
+	if c == Cont::Mbtiles {
+		mbtiles_pool_token();
+	}
+	let r = catch(|| {
+		rt.block_on(async {
+			match c {
+				Cont::Versatiles => VersaTilesWriter::write_to_path(src, path).await,
+				Cont::Pmtiles => PMTilesWriter::write_to_path(src, path).await,
+				Cont::Mbtiles => MBTilesWriter::write_to_path(src, path).await,
+				Cont::Tar => TarTilesWriter::write_to_path(src, path).await,
+				Cont::Directory => DirectoryTilesWriter::write_to_path(src, path).await,
+			}
+		})
+	});
+	match r {
+		Ok(Ok(())) => Ok(Written::Path(path.to_path_buf())),
+		Ok(Err(e)) => Err(format!("{e:#}")),
+		Err(p) => Err(format!("PANIC {p}")),
+	}
+}
+
 pub fn open(rt: &tokio::runtime::Runtime, c: Cont, w: &Written) -> Result<Box<dyn TilesReaderTrait>, String> {
 	if c == Cont::Mbtiles {
 		mbtiles_pool_token();
